@@ -33,7 +33,7 @@ def cases(seed, tier):
     # the same kind of run written the way the built-in plans write it: run_wrapper closes the run itself on the way
     # out (abort, stop, failure), so the engine's end-of-call clean-up finds no open run any more
     rng = gen.rng_for(ID, seed, "wrapped")
-    base = generic.base_case(ID, seed, rng, suspender=0.3, flyers=1, followups=True)
+    base = generic.base_case(ID, seed, rng, suspender=0.3, flyers=1, followups=True, plan_opts={"builtin": 0.0})
     pg = gen.PlanGen(rng, base["devices"], sites=SiteCounter())
     block = pg.run_block(fly=1.0, monitor=0.5, npoints=rng.choice([1, 2]))
     inner = block[1:-1]
@@ -62,7 +62,9 @@ def check(res):
             unst = [e for e in calls if e.d["method"] == "unstage"]
             unst_ok = [e for e in unst if ok(e)]
             unstage_faulted = any(not ok(e) for e in unst)
-            if len(unst) < len(stages) or (not unstage_faulted and len(unst_ok) != len(stages)):
+            # (an unstage() of a device that was never staged - stage_wrapper interrupted while still staging
+            # unstages its whole list - leaves nothing behind: more unstages than stages is not asserted)
+            if len(unst) < len(stages) or (not unstage_faulted and len(unst_ok) < len(stages)):
                 out.append(
                     V(
                         "stage-unstage-imbalance",
@@ -107,8 +109,9 @@ def check(res):
     user_calls = [c for c in v.calls if c.api == "call"]
     steps = [s for s in res.case["script"] if s["do"] == "call"]
     temp = set()
+    main_at = next((i for i, s in enumerate(steps) if s.get("main")), 0)  # calls before it (a prelude) have no per-call subscribers
     for idx, inv in enumerate(v.invocations):
-        if idx == 0:
+        if idx <= main_at:
             continue
         if v.invocations[idx - 1].final_state != "idle":
             continue
